@@ -8,7 +8,7 @@
    theorem holds for EVERY stream `us` and every oracle (conv / cb / lens / bt: decisions that depend on float
    arithmetic or on the user's callback), i.e. for every objective function, seed and schedule. *)
 From Coq Require Import List ZArith QArith Bool Arith Lia.
-From SV Require Import C19.B_Common C19.B_DE C19.B_PSO C19.B_NM C19.B_Bayes C19.B_Flow C19.B_Bounds C19.B_Spec
+From SV Require Import C19.B_Common C19.B_DE C19.B_PSO C19.B_NM C19.B_Bayes C19.B_Flow C19.B_Powell C19.B_Bounds C19.B_Spec
      C19.B_ProofsCommon C19.B_ProofsBounds C19.B_Theorems.
 Import ListNotations.
 Open Scope Z_scope.
@@ -124,8 +124,8 @@ Proof. exact bo_mirror. Qed.
 Print Assumptions mirror_bayesian.
 
 (* ------------------------------------------------------------------ powell, bfgs, lbfgs *)
-Theorem objective_is_f_powell : forall n max_iter lens conv moved cb interval us r,
-  powell_run n max_iter lens conv moved cb interval us = Some r ->
+Theorem objective_is_f_powell : forall minimize n max_iter ls conv moved cb interval us r,
+  powell_run minimize n max_iter ls conv moved cb interval us = Some r ->
   nth_error us (r_sol r) = Some (r_obj r).
 Proof. exact powell_objective_is_f. Qed.
 Print Assumptions objective_is_f_powell.
@@ -205,10 +205,11 @@ Proof. vm_compute. reflexivity. Qed.
 Example bayesian_example :
   bo_run false 2 5 None 0 [3; 8; 2; 9; 4] = Some (mkR 3 9 5 5 MAX_ITER).
 Proof. vm_compute. reflexivity. Qed.
-Example powell_example :   (* 1 dimension, 2 iterations, line searches of 3, 2 and 4 calls *)
-  powell_run 1 2 (fun j => nth j [3; 2; 4]%nat 0%nat) (fun it => (it =? 1)%nat) (fun it => (it =? 0)%nat) None 0
-             [9;  7; 8; 6;  5; 4;  3; 2; 1; 2]
-  = Some (mkR 9 2 1 10 OPTIMAL).
+Example powell_example :   (* maximise, 1 dimension: a line search (bracket grows once: 4 calls, golden: 2+1+1 calls),
+                              then a degenerate one; the value handed back is the user's value of the last call *)
+  powell_run false 1 1 (fun j => nth j [(false, 1%nat); (true, 0%nat)] (true, 0%nat)) (fun _ => false) (fun _ => true) None 0
+             [2;  3; 5; 6; 4;  5; 6; 7; 8;  8]
+  = Some (mkR 9 8 1 10 MAX_ITER).
 Proof. vm_compute. reflexivity. Qed.
 Example bfgs_example :     (* 2 iterations, line searches with 2 and 1 trial points, fresh evaluation at the end *)
   bfgs_run 2 (fun _ => false) (fun j => nth j [2; 1]%nat 0%nat) None 0 [9; 8; 7; 7;  7; 5; 5;  5]
